@@ -46,6 +46,12 @@ func (c *InternalCron) ScheduleEvent(ctx *core.Context, se *ScheduledEvent) erro
 	}
 
 	fn := func(t time.Time) error {
+		// Every firing works on a context of its own.  The scheduling
+		// context is shared by all the jobs scheduled under it (all the
+		// scheduled rules of a location when it is loaded), jobs run
+		// concurrently, and a Context carries per-request state (the
+		// privilege that lets a state hook skip the state lock).
+		ctx := ctx.SubContext()
 		loc := ctx.Location()
 		if loc == nil {
 			return errors.New("no location in ctx")
